@@ -11,6 +11,7 @@ import Frugal.Alloc
 import Frugal.Bitset
 import Frugal.DescMap
 import Frugal.Norm
+import Frugal.BuildCache
 import Frugal.Proofs.NormFacts
 open Frugal Frugal.Proto
 
@@ -198,18 +199,37 @@ def bump (k : String) : List (String × Nat) → List (String × Nat)
   | [] => [(k, 1)]
   | (a, n) :: r => if a == k then (a, n + 1) :: r else (a, n) :: bump k r
 
-partial def loop (ctx : Ctx) (h : IO.FS.Stream) (lineNo diffs : Nat) (skips : List (String × Nat)) :
-    IO (Nat × Nat × List (String × Nat)) := do
+/-- `use <sid> -> ok|err pf=<n>`: one step of the build-cache state machine -/
+def handleUse (ctx : Ctx) (cache : CacheSt) (ln : String) : Option (CacheSt × Option String) :=
+  match ln.splitOn " -> " with
+  | [lhs, rhs] =>
+    match splitWs lhs with
+    | ["use", sid] =>
+      let (ok, cache') := useType ctx.R sid.toNat! cache
+      let exp := (if ok then "ok" else "err") ++ " pf=" ++ toString cache'.pf.length
+      let got := " ".intercalate (splitWs rhs)
+      some (cache', if exp == got then none else some s!"DIFF use sid={sid} model=[{exp}] go=[{got}]")
+    | _ => none
+  | _ => none
+
+partial def loop (ctx : Ctx) (h : IO.FS.Stream) (lineNo diffs : Nat) (skips : List (String × Nat))
+    (cache : CacheSt) : IO (Nat × Nat × List (String × Nat)) := do
   let ln ← h.getLine
   if ln.isEmpty then return (lineNo, diffs, skips)
   let ln := String.ofList (ln.toList.reverse.dropWhile (fun c => c == '\n' || c == '\r')).reverse
+  match handleUse ctx cache ln with
+  | some (cache', none) => loop ctx h (lineNo + 1) diffs skips cache'
+  | some (cache', some msg) =>
+    IO.println s!"{msg} @line={lineNo + 1}"
+    loop ctx h (lineNo + 1) (diffs + 1) skips cache'
+  | none =>
   match handle ctx ln with
-  | none => loop ctx h (lineNo + 1) diffs skips
+  | none => loop ctx h (lineNo + 1) diffs skips cache
   | some msg =>
-    if msg.startsWith "SKIP" then loop ctx h (lineNo + 1) diffs (bump msg skips)
+    if msg.startsWith "SKIP" then loop ctx h (lineNo + 1) diffs (bump msg skips) cache
     else
       IO.println s!"{msg} @line={lineNo + 1}"
-      loop ctx h (lineNo + 1) (diffs + 1) skips
+      loop ctx h (lineNo + 1) (diffs + 1) skips cache
 
 def main (args : List String) : IO UInt32 := do
   match args with
@@ -218,7 +238,7 @@ def main (args : List String) : IO UInt32 := do
     let U := parseUniverse lines
     let ctx : Ctx := { U := U, R := resolveAll U, S := schemaOf U, P := Frugal.Generated.params }
     let stdin ← IO.getStdin
-    let (n, d, sk) ← loop ctx stdin 0 0 []
+    let (n, d, sk) ← loop ctx stdin 0 0 [] {}
     let sks := " ".intercalate (sk.map fun (k, c) => s!"[{k}]={c}")
     IO.println s!"SUMMARY lines={n} diffs={d} structs={U.length} outside_theorem_hypotheses: {sks}"
     return (if d == 0 then 0 else 1)
